@@ -99,6 +99,21 @@ class Node:
         except KeyError:
             return None
 
+    @property
+    def pos(self):
+        """position of the node in the canonical tree of its function (pre-order): the order in which code is written. Node ids are
+        clang's and say the same for untouched code, but code put back from a helper or a temporary has fresh ids: rules compare
+        positions, never ids."""
+        fn = self.fn
+        od = getattr(fn, '_order', None)
+        if od is None or self.id not in od:
+            od = {}
+            if fn.body is not None:
+                for i, n in enumerate(fn.body.walk()):
+                    od[n.id] = i
+            fn._order = od
+        return od.get(self.id, -1)
+
     def child(self, role):
         if self.k == 'CXXOperatorCallExpr' and role in ('lhs', 'rhs') and self.j.get('op') in ('=', '+=', '-=', '*=', '/='):
             a = [c for c, r in zip(self.c, self.rl) if r == 'arg']
